@@ -88,10 +88,9 @@ def run(tier, seed):
                 r2.setdefault('flags', b.get('flags'))
                 pairs.append((P(n, s, a, b), P(n + '@' + vn, s, a, r2)))
                 meta.append(vn)
-    reports, st, cases = equiv.explore(pairs, slack=False, maxlen=8 if quick else 12, budget=20000 if quick else 300000, timeout=500 if quick else 3000)
+    reports, st, cases = equiv.explore(pairs, slack=False, maxlen=8 if quick else 12, budget=20000 if quick else 300000, timeout=2000 if quick else 9000)
     for e in st['errors']:
-        if 'timeout' not in str(e):
-            chk.machinery_error('TLC(Equiv): ' + str(e)[:1500])
+        chk.machinery_error('TLC(Equiv): ' + str(e)[:1500])
     kinds = collections.Counter()
     for (a_, b_), reps, vn in zip(pairs, reports, meta):
         for r in reps:
